@@ -85,7 +85,12 @@ errtok!(tower_resilience_bulkhead::BulkheadServiceError<E>, tower_resilience_bul
     tower_resilience_bulkhead::BulkheadServiceError::Bulkhead(tower_resilience_bulkhead::BulkheadError::Timeout) => "timeout".to_string(),
     _ => "full".to_string(),
 });
-errtok!(tower_resilience_ratelimiter::RateLimiterServiceError<E>, tower_resilience_ratelimiter::RateLimiterServiceError::Inner, |_e: &tower_resilience_ratelimiter::RateLimiterServiceError<E>| "ratelimited".to_string());
+errtok!(tower_resilience_ratelimiter::RateLimiterServiceError<E>, tower_resilience_ratelimiter::RateLimiterServiceError::Inner, |_e: &tower_resilience_ratelimiter::RateLimiterServiceError<E>| "limited".to_string());
+errtok!(tower_resilience_adaptive::AdaptiveError<E>, tower_resilience_adaptive::AdaptiveError::Service, |_e: &tower_resilience_adaptive::AdaptiveError<E>| "limit".to_string());
+errtok!(tower_resilience_coalesce::CoalesceError<E>, tower_resilience_coalesce::CoalesceError::Service, |e: &tower_resilience_coalesce::CoalesceError<E>| match e {
+    tower_resilience_coalesce::CoalesceError::LeaderCancelled => "cancelled".to_string(),
+    _ => "recv".to_string(),
+});
 impl<E: ErrTok> ErrTok for tower_resilience_fallback::FallbackError<E> {
     fn own(&self) -> Option<String> {
         match self {
